@@ -8,6 +8,11 @@ import (
 // checkC17: the registered handler keeps receiving on every later connection.
 func checkC17(ix *index, add addFn) {
 	sc := ix.sc
+	if sc.Family == "race" {
+		// (the hand-driven RetryClient of engine S can keep a replaced connection
+		// open, whose handler legitimately differs)
+		checkC17Stable(ix, add)
+	}
 	// handler registrations in trace order
 	type reg struct {
 		inv, ret int
@@ -103,6 +108,21 @@ func checkC17(ix *index, add addFn) {
 		}
 		if replAt >= 0 && latest < 0 {
 			acceptable = append(acceptable, 0) // nothing was registered before the replacement
+		}
+		if latest >= 0 {
+			// registrations that overlapped the latest one (concurrent Handle calls
+			// of two goroutines) may have been applied after it
+			var L *reg
+			for k := range regs {
+				if regs[k].ret == latestAt {
+					L = &regs[k]
+				}
+			}
+			for _, g := range regs {
+				if L != nil && g.ret != L.ret && g.inv < L.ret && g.ret > L.inv && g.ret < i {
+					acceptable = append(acceptable, g.h)
+				}
+			}
 		}
 		if latest < 0 && len(acceptable) == 0 {
 			continue // no handler registered yet: nothing is owed
@@ -206,6 +226,52 @@ func checkC17(ix *index, add addFn) {
 		}
 		if !ok {
 			add("which", fmt.Sprintf("inbound message %q on conn %d went to handler %d, the registered one is %v", msg.Pay, r.Conn, got, acceptable), nil)
+		}
+	}
+}
+
+// checkC17Stable: with no registration in between, consecutive messages go to
+// the same handler - also across a reconnect (two concurrent Handle calls may
+// be applied in either order, but in one order).
+func checkC17Stable(ix *index, add addFn) {
+	type ho struct {
+		idx, h, conn int
+		pay          string
+	}
+	var hs []ho
+	for i := range ix.tr {
+		if i >= ix.end() {
+			break
+		}
+		if r := &ix.tr[i]; r.Kind == "hin" && r.P != nil {
+			hs = append(hs, ho{i, int(r.V), 0, r.P.Pay})
+		}
+	}
+	for k := 1; k < len(hs); k++ {
+		a, b := hs[k-1], hs[k]
+		if a.h == b.h {
+			continue
+		}
+		changed := false
+		for j, op := range ix.sc.Ops {
+			if op.Kind != "handle" {
+				continue
+			}
+			o := ix.ops[j]
+			// a registration that was still going on at, or made after, the first
+			// hand-over may explain the change
+			if o.inv >= 0 && (o.ret < 0 || o.ret > a.idx) && o.inv < b.idx {
+				changed = true
+			}
+		}
+		for i := a.idx; i < b.idx; i++ {
+			if ix.tr[i].Kind == "reg" {
+				changed = true
+			}
+		}
+		if !changed {
+			add("which", fmt.Sprintf("message %q went to handler %d and the next one, %q, to handler %d although no handler was registered in between", a.pay, a.h, b.pay, b.h), map[string]string{"kind": "unstable"})
+			return
 		}
 	}
 }
